@@ -17,9 +17,6 @@ Proof.
   rewrite firstn_removelast. reflexivity.
 Qed.
 
-Ltac gosem := cbv [orM andM eqM neqM notM prefixM suffixM containsM sliceM lenM subM addM leM ltM
-  isnilM derefM fmap ret goeq GoEq_bstr GoEq_Z GoEq_bool bind].
-
 Theorem tie_ResolveAbility : forall pattern can,
   ResolveAbility pattern can = Ret (resolve_ability pattern can).
 Proof.
